@@ -179,13 +179,19 @@ def tokenize (line : Str) (skip : Nat) : Except TokErr (List (Token F)) :=
   | (ts, none) => .ok (ts.map (·.1))
   | (_, some e) => .error e
 
+/-- the character that starts exactly at byte offset `i` (`str::get(i..)` then `chars().next()`) -/
+def charAtByte : Nat → Str → Option Char
+  | _, [] => none
+  | 0, c :: _ => some c
+  | n + 1, c :: cs => if n + 1 < c.utf8Size then none else charAtByte (n + 1 - c.utf8Size) cs
+
 /-- `TokenizationError::string_range` (given the line text) -/
 def TokErr.range (e : TokErr) (line : Str) : Nat × Nat :=
   match e with
   | .illegalChar i =>
-    match dropBytes i line with
-    | c :: _ => (i, i + c.utf8Size)
-    | [] => (i, i + 1)
+    match charAtByte i line with
+    | some c => (i, i + c.utf8Size)
+    | none => (i, i + 1)
   | .unterminated i => (i, len8 line)
   | .invalidNumber a b => (a, b)
   | .outOfFuel => (0, 0)
